@@ -17,6 +17,9 @@
 //!   X a b n res             fft(a, n), fft(b, n) on the CURRENT object, pointwise product, fft_inv / fft_inv_into
 //!                           on the SECOND object (which may be fresh, smaller than n, a clone, ...)
 //!   X2 a b n res            the same with `*=`
+//!   RS v n sh res           fft(v, n), the spectrum scaled by 2^-sh (exact), fft_inv (all-zero destination of full
+//!                           length) / fft_inv_into: the write-out must give the integers nearest to v[j] / 2^sh
+//!   RX v n sh res           the same with the inverse transform on the SECOND object
 //! Aliased operands (one allocation `p`, both operands are sub-slices of it):
 //!   MA p i0 i1 j0 j1        multiply(&p[i0..i1], &p[j0..j1])
 //!   MIA p i0 i1 j0 j1 res   multiply_into(&p[i0..i1], &p[j0..j1], res)
@@ -28,7 +31,8 @@
 //! `E ty la lb mx pattern seed samples route` : envelope probe on a fresh FFT<ty> against the
 //! exact i128 schoolbook convolution on sampled coefficients AND against a modular evaluation of ALL
 //! coefficients (a(x) b(x) = c(x) at three points modulo 2^61-1).  Patterns: 0 all +mx, 1 alternating
-//! sign in a (b all +mx), 2 alternating sign in both, 3 random sign |coef| = mx, 4 random in [-mx, mx].
+//! sign in a (b all +mx), 2 alternating sign in both, 3 random sign |coef| = mx, 4 random in [-mx, mx],
+//! 5 a all -mx, b all +mx, 6 a uniform in [0, mx], b all -mx (5, 6: every coefficient of the product negative).
 //! Routes: 0 multiply; 1 fft, fft, product, fft_inv; 2 multiply_into on a pseudo-random non-zero destination
 //! of length tot / tot+3 / tot-1; 3 fft, fft on one object, product (`*=`), fft_inv_into on a non-zero
 //! destination on a FRESH second object; 4 one object: multiply(big), multiply(prefixes of 1/8 length),
@@ -47,7 +51,8 @@
 //! (VALS[ai], VALS[bi]) -> L = CORRECT_<ty>_BOUNDS[ai][bi], READ FROM THE CRATE.  a in [A-aback ..= A] of length la,
 //! b in [B-bback ..= B] of length lb, (la, lb) by lmode: 0 (L,L) 1 (L-1,L) 2 (L,L-1) 3 (L-2,L) 4 (L-1,L-1)
 //! 5 (L/2+1, L/2+1); swap 1: the call is made with the operands exchanged; sign: 0 non-negative (the
-//! table's claim), 1 alternating, 2 random, 3 all negative; route 0 multiply, 1 multiply_into on a non-zero
+//! table's claim), 1 alternating, 2 random, 3 all negative (a non-negative product), 4 a negated, b as
+//! in the claim, 5 a as in the claim, b negated (4, 5: every coefficient negative, magnitudes as in the claim); route 0 multiply, 1 multiply_into on a non-zero
 //! destination (length tot or tot+3), 2 fft, fft, product, fft_inv; pre 0 fresh object, 1 after a small
 //! product, 2 after update_n(2n).
 //! Output: `P L la lb wrong checked maxerr first_bad_index modfail`.
@@ -182,6 +187,27 @@ fn history(t: &[&str]) -> String {
                         res = inv.fft_inv(&prod);
                     } else {
                         inv.fft_inv_into(&prod, &mut res);
+                    }
+                })
+                .map(|_| ints(&res))
+            }
+            // fft(v, n), every entry of the spectrum multiplied by 2^-sh (exact), fft_inv / fft_inv_into: the inverse
+            // transform is handed the spectrum of the real sequence v[j] / 2^sh and must write out the NEAREST integers
+            "RS" | "RX" => {
+                let v = tk.i32s();
+                let n = tk.usize();
+                let sh = tk.usize();
+                let mut res = tk.i64s();
+                let second = op == "RX";
+                guarded(|| {
+                    let fv = fft.fft(&v, n);
+                    let k = 1.0f64 / (1u64 << sh) as f64;
+                    let spec = fv.iter().map(|c| Complex::new(c.x * k, c.y * k)).collect::<Vec<_>>();
+                    let inv = if second { &mut aux } else { &mut fft };
+                    if res.len() == spec.len() && res.iter().all(|x| *x == 0) {
+                        res = inv.fft_inv(&spec);
+                    } else {
+                        inv.fft_inv_into(&spec, &mut res);
                     }
                 })
                 .map(|_| ints(&res))
@@ -414,6 +440,21 @@ fn envelope<F: Float>(t: &[&str]) -> String {
                         mx
                     }
                 }
+                // every coefficient of the product negative: a all -mx, b all +mx (5); a uniform in [0, mx], b all -mx (6)
+                5 => {
+                    if which == 0 {
+                        -mx
+                    } else {
+                        mx
+                    }
+                }
+                6 => {
+                    if which == 0 {
+                        (rng.next() % (mx as u64 + 1)) as i32
+                    } else {
+                        -mx
+                    }
+                }
                 _ => ((rng.next() % (2 * mx as u64 + 1)) as i64 - mx as i64) as i32,
             })
             .collect()
@@ -482,6 +523,37 @@ fn envelope<F: Float>(t: &[&str]) -> String {
     }
 }
 
+/// `R ty n sh into pre len v1 .. vlen`: fft(v, n) on a fresh FFT<ty> (pre 1: after a small product, 2: after
+/// update_n(4n)), spectrum scaled by 2^-sh, fft_inv (into 0) or fft_inv_into on a pseudo-random non-zero destination of
+/// length n (into 1) / n+3 (into 2); prints `R <result minus the previous destination contents>`.
+fn rounding<F: Float>(t: &[&str]) -> String {
+    let n: usize = p(t[2]);
+    let sh: usize = p(t[3]);
+    let into: u32 = p(t[4]);
+    let pre: u32 = p(t[5]);
+    let len: usize = p(t[6]);
+    let v: Vec<i32> = (0..len).map(|i| p(t[7 + i])).collect();
+    let mut fft = FFT::<F>::new();
+    if pre == 1 {
+        let _ = fft.multiply(&[1, -2, 3], &[4, 5]);
+    } else if pre == 2 {
+        fft.update_n(4 * n.max(1));
+    }
+    let fv = fft.fft(&v, n);
+    let k = F::ONE / F::from_usize(1usize << sh);
+    let spec = fv.iter().map(|c| Complex::new(c.x * k, c.y * k)).collect::<Vec<_>>();
+    let mut rng = Sm(0x5eed ^ (n as u64) << 8 ^ len as u64);
+    let out: Vec<i64> = if into == 0 {
+        fft.fft_inv(&spec)
+    } else {
+        let base = pseudo_dest(&mut rng, if into == 1 { spec.len() } else { spec.len() + 3 });
+        let mut c = base.clone();
+        fft.fft_inv_into(&spec, &mut c);
+        c.iter().zip(base.iter()).map(|(x, y)| x - y).collect()
+    };
+    format!("R {}", ints(&out))
+}
+
 fn bounds_for(ty: &str) -> &'static [[f64; VALS_TO_CHECK.len()]; VALS_TO_CHECK.len()] {
     match ty {
         "f64" => &CORRECT_F64_BOUNDS,
@@ -529,13 +601,29 @@ fn published<F: Float>(t: &[&str]) -> String {
         return "P 0 0 0 0 0 0 -1 0".to_string();
     }
     let mut rng = Sm(seed);
-    let mut gen = |len: usize, mx: i32, back: i32| -> Vec<i32> {
+    let mut gen = |len: usize, mx: i32, back: i32, which: u32| -> Vec<i32> {
         let lo = (mx - back).max(0);
         (0..len)
             .map(|i| {
                 let v = lo + (rng.next() % ((mx - lo) as u64 + 1)) as i32;
                 match sign {
                     0 => v,
+                    // one operand negated as a whole: EVERY coefficient of the product is negative and as large as in the
+                    // table's own claim (the mirror image of sign 0)
+                    4 => {
+                        if which == 0 {
+                            -v
+                        } else {
+                            v
+                        }
+                    }
+                    5 => {
+                        if which == 1 {
+                            -v
+                        } else {
+                            v
+                        }
+                    }
                     1 => {
                         if i % 2 == 1 {
                             -v
@@ -555,8 +643,8 @@ fn published<F: Float>(t: &[&str]) -> String {
             })
             .collect()
     };
-    let a = gen(la, amax, aback);
-    let b = gen(lb, bmax, bback);
+    let a = gen(la, amax, aback, 0);
+    let b = gen(lb, bmax, bback, 1);
     let (x, y): (&[i32], &[i32]) = if swap == 1 { (&b, &a) } else { (&a, &b) };
     let total = la + lb - 1;
     let n = total.next_power_of_two().max(2);
@@ -674,6 +762,7 @@ fn main() {
         "H" => history(t),
         "E" => by_type(t, envelope::<f64>, envelope::<f32>),
         "P" => by_type(t, published::<f64>, published::<f32>),
+        "R" => by_type(t, rounding::<f64>, rounding::<f32>),
         "PT" => print_table(t),
         "TW" => by_type(t, tables::<f64>, tables::<f32>),
         other => {
